@@ -175,6 +175,37 @@ func checkLocked(c *fw.Ctx, rule string, fn *ssa.Function, fname, fieldSig, lock
 		if blockingCalls(n) {
 			c.Fail(rule, fname+": no blocking call while a mutex is held", c.P.Pos(call.Pos()), fmt.Sprintf("%s is called while holding {%s}: every other user of the structure waits for the network", n, fw.SortedLocks(h)))
 		}
+		_ = h
+	}
+	// re-entry: a callee (on the same receiver) that takes a mutex the caller still holds on
+	// some path blocks forever: sync mutexes are not re-entrant
+	may := fw.MayHeldAt(fn, nil)
+	for _, call := range fw.Calls(fn) {
+		h := may[call.(ssa.Instruction)]
+		if len(h) == 0 {
+			continue
+		}
+		if n := fw.CalleeName(call); (strings.HasSuffix(n, "Mutex).Lock") || strings.HasSuffix(n, "Mutex).RLock")) && len(call.Common().Args) > 0 {
+			if _, isDefer := call.(*ssa.Defer); !isDefer {
+				lk := strings.TrimPrefix(fw.Sig(call.Common().Args[0]), "&")
+				if h[lk] {
+					c.Fail(rule, fname+": no mutex is locked again while it is held", c.P.Pos(call.Pos()), fmt.Sprintf("%s is locked here while a path reaches this point with it still held (a deferred Unlock only runs at return): the goroutine deadlocks", lk))
+				}
+			}
+		}
+		if cc, isCall := call.(*ssa.Call); isCall {
+			if callee := cc.Call.StaticCallee(); callee != nil && len(callee.Blocks) > 0 && len(cc.Call.Args) > 0 && callee.Signature.Recv() != nil && fw.Sig(cc.Call.Args[0]) == "recv" {
+				for lk := range acquiresOnRecv(callee, 0, map[*ssa.Function]bool{}) {
+					if h[lk] || h[lk+"#r"] {
+						c.Fail(rule, fname+": no callee re-acquires a mutex the caller holds", c.P.Pos(call.Pos()), fmt.Sprintf("%s locks %s, which is still held here (held: {%s}; a deferred Unlock only runs at return): the goroutine deadlocks with the mutex held and every other user of the structure blocks behind it", fw.FuncName(callee), lk, fw.SortedLocks(h)))
+					}
+				}
+			}
+		}
+	}
+	for _, call := range fw.Calls(fn) {
+		h := held[call.(ssa.Instruction)]
+		n := fw.CalleeName(call)
 		if op := strings.HasSuffix(n, "Mutex).Lock"); op && len(h) > 0 {
 			lk := strings.TrimPrefix(fw.Sig(call.Common().Args[0]), "&")
 			if !h[lk] {
@@ -213,37 +244,50 @@ func checkDNSCache(c *fw.Ctx) {
 	}
 	// the resolver is called without the lock (it is a blocking call; also checked above) and between the two sections
 	// bound: insertion in the same critical section as the eviction loop
+	// (the insertion, the eviction loop and the hit test may live in unexported helpers of lookup)
 	var insert *ssa.MapUpdate
-	for _, b := range lookup.Blocks {
-		for _, ins := range b.Instrs {
-			if mu, ok := ins.(*ssa.MapUpdate); ok {
-				insert = mu
-			}
+	var insertFr *fw.Frame
+	for _, di := range fw.DeepInstrs(lookup, nil) {
+		if mu, ok := di.Instr.(*ssa.MapUpdate); ok && strings.HasSuffix(fw.Sig(mu.Map), ".entries") {
+			insert, insertFr = mu, di.Fr
 		}
 	}
 	if insert == nil {
-		c.Fail(rule, "the cache inserts resolved entries", c.P.Pos(lookup.Pos()), "no insertion found")
+		c.Undecided(rule, "the cache inserts resolved entries", "no insertion into entries found under lookup")
 		return
 	}
-	c.Check(fw.Sig(insert.Key) == "param:name", rule, "an entry is stored under the looked-up host name", c.P.Pos(fw.InstrPos(insert)), fw.Sig(insert.Key), "insertion key is "+fw.Sig(insert.Key))
+	insFn := insert.Parent()
+	c.CheckDerives(insert.Key, insertFr, fw.FlowSpec{IsSourceIn: func(v ssa.Value, fr *fw.Frame) bool {
+		return fr == nil && len(lookup.Params) > 2 && v == ssa.Value(lookup.Params[2])
+	}}, rule, "an entry is stored under the looked-up host name", c.P.Pos(fw.InstrPos(insert)), "", "the insertion key is "+fw.SigIn(insertFr, insert.Key)+", not the host name that was resolved: one host is served another host's addresses")
 	var all []string
 	for _, f := range fw.DomConds(insert.Block()) {
 		all = append(all, f.String())
 	}
 	full := strings.Join(all, " && ")
-	c.Check(strings.Contains(full, "!(builtin.len(*recv.entries) >= *recv.size)"), rule, "an entry is inserted only after the eviction loop established len(entries) < size", c.P.Pos(fw.InstrPos(insert)), "", "insertion under ["+full+"]")
-	// no Unlock between the eviction loop's header and the insertion
+	roomTest := func(s string) bool {
+		return strings.Contains(s, "builtin.len(*recv.entries) >= *recv.size)") || strings.Contains(s, "builtin.len(*recv.entries) < *recv.size)")
+	}
 	var header *ssa.BasicBlock
-	for _, iff := range fw.Ifs(lookup) {
-		if fw.Sig(iff.Cond) == "(builtin.len(*recv.entries) >= *recv.size)" {
+	for _, iff := range fw.Ifs(insFn) {
+		if roomTest(fw.Sig(iff.Cond)) {
 			header = iff.Block()
 		}
 	}
+	switch {
+	case strings.Contains(full, "!(builtin.len(*recv.entries) >= *recv.size)") || strings.Contains(full, "(builtin.len(*recv.entries) < *recv.size)") && !strings.Contains(full, "!(builtin.len(*recv.entries) < *recv.size)"):
+		c.Ok(rule, "an entry is inserted only after the eviction loop established len(entries) < size", c.P.Pos(fw.InstrPos(insert)), "")
+	case header == nil:
+		c.Undecided(rule, "an entry is inserted only after the eviction loop established len(entries) < size", "no test of len(entries) against size found in "+fw.FuncName(insFn))
+	default:
+		c.Fail(rule, "an entry is inserted only after the eviction loop established len(entries) < size", c.P.Pos(fw.InstrPos(insert)), "insertion under ["+full+"]: the room test does not dominate the insertion, so the cache can exceed its size")
+	}
+	// no Unlock between the eviction loop's header and the insertion
 	if header == nil {
-		c.Fail(rule, "the eviction loop tests len(entries) >= size", c.P.Pos(lookup.Pos()), "eviction loop not found")
+		c.Undecided(rule, "the eviction loop tests len(entries) >= size", "eviction loop not found in "+fw.FuncName(insFn))
 	} else {
 		okSection := true
-		for _, op := range fw.LockOps(lookup) {
+		for _, op := range fw.LockOps(insFn) {
 			if op.Acquire || op.Deferred {
 				continue
 			}
@@ -291,14 +335,16 @@ func checkDNSCache(c *fw.Ctx) {
 			}
 		}
 		c.Check(okAll, rule, "a cached entry is served only before its expiry", c.P.Pos(fw.InstrPos(r)), "", "cached hit under ["+cond.String()+"]")
-		okVal := fw.DerivesFrom(r.Results[0], fw.FlowSpec{All: true, IsSourceIn: func(v ssa.Value, fr *fw.Frame) bool {
+		c.CheckDerives(r.Results[0], nil, fw.FlowSpec{All: true, IsSourceIn: func(v ssa.Value, fr *fw.Frame) bool {
+			if k, isC := v.(*ssa.Const); isC && k.Value == nil {
+				return true // "no entry" is not another host's entry
+			}
 			if ex, isEx := v.(*ssa.Extract); isEx {
 				v = ex.Tuple
 			}
 			lk, isLk := v.(*ssa.Lookup)
 			return isLk && strings.HasSuffix(fw.SigIn(fr, lk.X), "recv.entries") && fw.SigIn(fr, lk.Index) == "param:name"
-		}})
-		c.Check(okVal, rule, "a cached hit returns the entry of the looked-up name", c.P.Pos(fw.InstrPos(r)), "", "returns "+fw.Sig(r.Results[0]))
+		}}, rule, "a cached hit returns the entry of the looked-up name", c.P.Pos(fw.InstrPos(r)), "", "returns "+fw.Sig(r.Results[0]))
 	}
 	c.Min(rule+" cache-hit returns", nhit, 1)
 	for _, st := range fw.FieldStores(lookup, "dnsCacheEntry", "expires") {
@@ -595,4 +641,33 @@ func fieldPath(p fw.AddrPath) string {
 		s = append(s, f.Name())
 	}
 	return strings.Join(s, ".")
+}
+
+// acquiresOnRecv: the receiver-relative mutexes ("recv.mutex") that fn - or a method it calls
+// on the same receiver - locks when entered without them.
+func acquiresOnRecv(fn *ssa.Function, depth int, seen map[*ssa.Function]bool) map[string]bool {
+	out := map[string]bool{}
+	if depth > 3 || seen[fn] {
+		return out
+	}
+	seen[fn] = true
+	for _, op := range fw.LockOps(fn) {
+		if op.Acquire && strings.HasPrefix(op.Lock, "recv.") {
+			out[strings.TrimSuffix(op.Lock, "#r")] = true
+		}
+	}
+	for _, call := range fw.Calls(fn) {
+		cc, ok := call.(*ssa.Call)
+		if !ok {
+			continue
+		}
+		callee := cc.Call.StaticCallee()
+		if callee == nil || len(callee.Blocks) == 0 || callee.Signature.Recv() == nil || len(cc.Call.Args) == 0 || fw.Sig(cc.Call.Args[0]) != "recv" {
+			continue
+		}
+		for k := range acquiresOnRecv(callee, depth+1, seen) {
+			out[k] = true
+		}
+	}
+	return out
 }
